@@ -108,8 +108,8 @@ Definition f3 := mkF 30 40 3 1 3.
 Definition ops_D19 : list op := [Add 0 f1; Sort; At 0 15 0 0; Add 0 f2; At 0 15 0 0].
 (* D19 through sort(): a fresh question after the second sort() misses f2 (stale 'nb' answers in fastIndex) *)
 Definition ops_D19_sort : list op := [Add 0 f1; Sort; Add 0 f2; Sort; At 0 16 0 0].
-(* D31: a range query right after addFeature is answered from the index of the previous state *)
-Definition ops_D31 : list op := [Add 0 f1; Between 0 12 13 0].
+(* D32: a range query right after addFeature is answered from the index of the previous state *)
+Definition ops_D32 : list op := [Add 0 f1; Between 0 12 13 0].
 (* D20: a read covering 25..29 (pysam block (25, 30)) is annotated with the feature [30, 40] *)
 Definition ops_D20 : list op := [Add 0 f3; Sort; Blocks 0 [(25, 30)] 0 1].
 
@@ -119,7 +119,7 @@ Proof.
   apply Permutation_length in H. vm_compute in H. discriminate.
 Qed.
 
-Lemma no_D31 g : run_ops g init ops_D31 = [ROk []; ROk []] -> ~ trace_ok [] ops_D31 (run_ops g init ops_D31).
+Lemma no_D32 g : run_ops g init ops_D32 = [ROk []; ROk []] -> ~ trace_ok [] ops_D32 (run_ops g init ops_D32).
 Proof.
   intros E H. rewrite E in H. simpl in H. destruct H as [_ [[_ H] _]].
   apply (proj2 (H f1)). vm_compute. left. reflexivity.
@@ -145,19 +145,19 @@ Proof.
   apply Permutation_length in H. vm_compute in H. discriminate.
 Qed.
 
-Lemma refuted_D31 : hist_wfb ops_D31 = true /\ ~ trace_ok [] ops_D31 (run_ops (mkCfg true false true) init ops_D31).
-Proof. split; [vm_compute; reflexivity | apply no_D31; vm_compute; reflexivity]. Qed.
+Lemma refuted_D32 : hist_wfb ops_D32 = true /\ ~ trace_ok [] ops_D32 (run_ops (mkCfg true false true) init ops_D32).
+Proof. split; [vm_compute; reflexivity | apply no_D32; vm_compute; reflexivity]. Qed.
 
 Lemma refuted_D20 : hist_wfb ops_D20 = true /\ ~ trace_ok [] ops_D20 (run_ops (mkCfg true true false) init ops_D20).
 Proof. split; [vm_compute; reflexivity | apply no_D20; vm_compute; reflexivity]. Qed.
 
 Lemma refuted_head :
   (hist_wfb ops_D19 = true /\ ~ trace_ok [] ops_D19 (run_ops cfg_head init ops_D19)) /\
-  (hist_wfb ops_D31 = true /\ ~ trace_ok [] ops_D31 (run_ops cfg_head init ops_D31)) /\
+  (hist_wfb ops_D32 = true /\ ~ trace_ok [] ops_D32 (run_ops cfg_head init ops_D32)) /\
   (hist_wfb ops_D20 = true /\ ~ trace_ok [] ops_D20 (run_ops cfg_head init ops_D20)).
 Proof.
   split; [|split]; (split; [vm_compute; reflexivity|]).
   - apply no_D19; vm_compute; reflexivity.
-  - apply no_D31; vm_compute; reflexivity.
+  - apply no_D32; vm_compute; reflexivity.
   - apply no_D20; vm_compute; reflexivity.
 Qed.
